@@ -386,6 +386,7 @@ func stormCase(seed uint64, idx int) (string, map[string]interface{}, string, bo
 
 func main() {
 	stress := flag.Int("stress", 0, "number of really concurrent (unscheduled) cases")
+	storm := flag.Int("storm", 0, "number of close-storm cases")
 	seed := flag.Uint64("seed", 1, "seed")
 	n := flag.Int("n", 600, "cases")
 	only := flag.Int("only", -1, "only this case")
@@ -403,7 +404,9 @@ func main() {
 	for i := 0; i < *stress; i++ {
 		c, d, cl, nt := stressCase(*seed, i)
 		out.Case(c, d, cl, nt)
-		c, d, cl, nt = stormCase(*seed, i)
+	}
+	for i := 0; i < *storm; i++ {
+		c, d, cl, nt := stormCase(*seed, i)
 		out.Case(c, d, cl, nt)
 	}
 }
